@@ -207,6 +207,18 @@ def generate(rng, tier, cls):
             prod = {'id': 'P1', 'kind': 'raw', 'file': 'f1',
                     'hex': data.hex()}
 
+        if rng.chance(0.04):
+            body = rng.choice([b'{"a": null, "a": null}\n',
+                               b'{"a": {}, "a": {"b": 1}}\n',
+                               b'{"k": "s", "k": 1, "k": [1]}\n',
+                               b'{"a": [{"x": {}, "x": null}]}\n'])
+            data = b'#diffx: encoding=utf-8, version=1.0\n' + \
+                b'#.meta: format=json, length=%d\n' % len(body) + body + \
+                b'#.change:\n#..file:\n#...meta: format=json, length=%d\n' \
+                % len(body) + body
+            prod = {'id': 'P1', 'kind': 'raw', 'file': 'f1',
+                    'hex': data.hex()}
+
         if rng.chance(0.06):
             # metadata nested far deeper than any parser recurses
             prod = {'id': 'P1', 'kind': 'raw', 'file': 'f1',
